@@ -6,6 +6,7 @@ import (
 	"fmt"
 	"io"
 	"math/rand"
+	"net/netip"
 	"os"
 	"runtime"
 	"sort"
@@ -320,6 +321,41 @@ func c06GenChain(rng *rand.Rand) (table []c06Entry, names []string, ending strin
 	return table, names, ending
 }
 
+// Unusual spellings of addresses.  An entry's family is that of the address
+// as written: an IPv4-mapped or IPv4-compatible literal is an IPv6 value (for
+// netip, ParseAddr("::ffff:1.2.3.4").Is4() is false), and the value served is
+// that very address.  "::ffff:10.0.0.1" and "::10.0.0.2" carry the digits of
+// values of the IPv4 pool on purpose.
+var (
+	c06OddV6 = []string{
+		"::ffff:10.0.0.5", "::ffff:a00:5", "::ffff:10.0.0.1", "::FFFF:10.0.0.2", "::10.0.0.5", "::10.0.0.2",
+		"2001:DB8:0:0::1", "2001:0db8:0000:0000:0000:0000:0000:0001", "2001:db8::1", "FD00:0:0:0::2", "::", "::1",
+	}
+	c06OddV4 = []string{"0.0.0.0", "127.0.0.1", "10.0.0.5", "255.255.255.255"}
+)
+
+// c06Respell replaces, in 30 % of the tables, half of the address values by
+// unusual spellings of the same family.
+func c06Respell(rng *rand.Rand, table []c06Entry) []c06Entry {
+	if rng.Intn(100) >= 30 {
+		return table
+	}
+	out := append([]c06Entry(nil), table...)
+	for i := range out {
+		if rng.Intn(2) == 0 {
+			continue
+		}
+		switch c06Read(out[i]).kind {
+		case c06KindA:
+			out[i].Answer = c06OddV4[rng.Intn(len(c06OddV4))]
+		case c06KindAAAA:
+			out[i].Answer = c06OddV6[rng.Intn(len(c06OddV6))]
+		}
+	}
+
+	return out
+}
+
 // c06Scripted are tables every run contains: the examples of AGHTechDoc and
 // of the package's own tests plus the corner cases named in DESIGN.
 func c06Scripted() [][]c06Entry {
@@ -364,6 +400,12 @@ func c06Scripted() [][]c06Entry {
 		e("a.example.org", "AAAA", "a.example.org", "A"),
 		e("a.example.org", "fd00::1", "*.example.org", "10.0.0.1"),
 		e("a.example.org", "ext.invalid", "ext.invalid", "10.0.0.1"),
+		// Addresses in unusual spellings: the family is that of the literal.
+		e("a.example.org", "::ffff:10.0.0.5", "b.example.org", "::ffff:a00:5", "b.example.org", "10.0.0.5"),
+		e("a.example.org", "::ffff:10.0.0.1", "a.example.org", "10.0.0.2", "*.example.org", "::10.0.0.5"),
+		e("c.example.org", "a.example.org", "a.example.org", "::ffff:10.0.0.5"),
+		e("a.example.org", "0.0.0.0", "a.example.org", "::", "b.example.org", "127.0.0.1", "b.example.org", "::1"),
+		e("a.example.org", "2001:DB8:0:0::1", "b.example.org", "2001:0db8:0000:0000:0000:0000:0000:0001", "*.other.test", "::FFFF:10.0.0.2"),
 		// Label boundary of wildcards: names glued to the apex, the apex
 		// itself, as queried names and as CNAME targets.
 		e("*.example.org", "10.0.0.1", "*.other.test", "fd00::1", "*.org", "AAAA"),
@@ -533,6 +575,7 @@ func TestVerifC06Table(t *testing.T) {
 	// every distance from its end.
 	const chainEvery = 25
 	chrng := rep.Rand("chains")
+	arng := rep.Rand("addrspelling")
 
 	for ti := 0; ti < nTables+len(scripted); ti++ {
 		var table []c06Entry
@@ -543,10 +586,11 @@ func TestVerifC06Table(t *testing.T) {
 		} else if (ti-len(scripted))%chainEvery == chainEvery-1 {
 			var ending string
 			table, chainNames, ending = c06GenChain(chrng)
+			table = c06Respell(arng, table)
 			rep.Class("tables:chain:ending-" + ending)
 			rep.Class(fmt.Sprintf("tables:chain:length-%s", c06LenBucket(len(chainNames)-1)))
 		} else {
-			table = c06Capitalise(crng, c06GenTable(rng))
+			table = c06Respell(arng, c06Capitalise(crng, c06GenTable(rng)))
 			rep.Class("tables:generated")
 		}
 		rep.Event("tables")
@@ -737,6 +781,13 @@ func TestVerifC06Table(t *testing.T) {
 			if exp.Depth >= 9 {
 				c06CountLong(rep, exp)
 			}
+			for _, ip := range obs[qi][0].IPs {
+				if a, perr := netip.ParseAddr(ip); perr == nil && a.Is4In6() {
+					rep.Event("served:ipv4-mapped-ipv6-value")
+				} else if perr == nil && (a.IsUnspecified() || a.IsLoopback()) {
+					rep.Event("served:zero-or-loopback-value")
+				}
+			}
 			if exp.Nontrivial && samples < 6 && ti >= len(scripted) && (ti-len(scripted))/97 == samples && exp.Depth+len(exp.Tags) > 0 {
 				samples++
 				rep.Sample(wit(0))
@@ -781,6 +832,9 @@ func TestVerifC06Table(t *testing.T) {
 		if rep.Events[k] < 50 {
 			rep.Inconcl(fmt.Sprintf("event %q seen %d times, fewer than 50", k, rep.Events[k]))
 		}
+	}
+	if rep.Events["served:ipv4-mapped-ipv6-value"] < 100 || rep.Events["served:zero-or-loopback-value"] < 50 {
+		rep.Inconcl("too few answers with IPv4-mapped, zero or loopback values observed")
 	}
 	if rep.Classes["tables:chain:ending-cycle"] < 10 || rep.Events["restart_comparisons"] < 10000 {
 		rep.Inconcl("too few long chains ending in a cycle or too few restart comparisons")
